@@ -8,6 +8,9 @@
   hist.reuse    every catalogue class: one instance called at (x1,t1), (x2,t2), (x1,t1) - first and third result bit-equal, and
                 the second bit-equal to the first call of a fresh, identically constructed instance (state kept on the
                 instance between calls: cached radii, per-call attributes, warm starts)
+  hist.shared   black-box Noh wrappers: the caller's initial-condition dictionary passed to two solvers, edited after the
+                construction, or the constructors' default dictionary edited through another instance - the first solver's
+                values must be those it returns when it is alone in the interpreter
   batch         the value at a point is unchanged (1e-10) by permutation, subsets, supersets and duplicates of the
                 other points of the request; grid-dependent solvers (Sedov, Mader) are compared on the same grid
                 and, where the grid changes with the request, within their documented resolution
@@ -478,6 +481,68 @@ def run_reuse(ctx, p):
                 measure=w, detail=dict(det, field=wf), nontrivial=nz)
 
 
+# ---- arguments shared between constructions: the caller's dictionary, the constructors' default dictionary ----------------------
+def gen_shared(rng, i, tier):
+    return dict(kind=["caller's dictionary passed to two wrappers", "default dictionary edited through another instance",
+                      "caller's dictionary edited after construction"][i % 3],
+                gamma=uni(rng, 1.2, 2.5), rho0=logu(rng, 0.3, 3), u0=-logu(rng, 0.3, 3), geoms=[int(rng.integers(3)), int(rng.integers(3))], t=uni(rng, 0.2, 1.0))
+
+
+def run_shared(ctx, p):
+    from exactpack.solvers.nohblackboxeos import PlanarNohBlackBox, CylindricalNohBlackBox, SphericalNohBlackBox
+    from .c16 import make_eos
+    W = [PlanarNohBlackBox, CylindricalNohBlackBox, SphericalNohBlackBox]
+    g, t = p["gamma"], p["t"]
+    ga, gb = p["geoms"]
+    if p["kind"].startswith("caller's dictionary passed") and ga == gb:
+        gb = (ga + 1) % 3
+    r = np.array([0.01, 0.05, 0.2, 1.0, 3.0]) * abs(p["u0"]) * t
+
+    def guess(s, m, rho0, u0):
+        rl = rho0 * ((g + 1) / (g - 1)) ** (m + 1)
+        s.set_new_solver_initial_guess([1.05 * rl, 0.95 * 0.5 * u0 * u0, 1.05 * abs(u0) * (g - 1) / 2])
+
+    def alone(default):
+        a = ctx.quiet(W[ga], make_eos("ideal", dict(gamma=g))) if default else ctx.quiet(W[ga], make_eos("ideal", dict(gamma=g)), dict(density=p["rho0"], velocity=p["u0"], pressure=0.0))
+        guess(a, ga, 1.0 if default else p["rho0"], -1.0 if default else p["u0"])
+        return ctx.call(a, r, t)
+    try:
+        if p["kind"].startswith("caller's dictionary passed"):
+            ic = dict(density=p["rho0"], velocity=p["u0"], pressure=0.0)
+            a = ctx.quiet(W[ga], make_eos("ideal", dict(gamma=g)), ic)
+            guess(a, ga, p["rho0"], p["u0"])
+            b = ctx.quiet(W[gb], make_eos("ideal", dict(gamma=g)), ic)          # the same dictionary object, another geometry
+            guess(b, gb, p["rho0"], p["u0"])
+            A = ctx.call(a, r, t)
+            ref = alone(False)
+        elif p["kind"].startswith("default dictionary"):
+            a = ctx.quiet(W[ga], make_eos("ideal", dict(gamma=g)))
+            guess(a, ga, 1.0, -1.0)
+            b = ctx.quiet(W[ga], make_eos("ideal", dict(gamma=g)))
+            b.initial_conditions["density"] = 1.0 * p["rho0"] * 2.5                 # the other instance's problem is changed ...
+            guess(b, ga, p["rho0"] * 2.5, -1.0)
+            try:
+                ctx.call(b, r, t)
+            except SolverRaised:
+                pass
+            A = ctx.call(a, r, t)                                                   # ... this one's must not be
+            ref = alone(True)
+        else:
+            ic = dict(density=p["rho0"], velocity=p["u0"], pressure=0.0)
+            a = ctx.quiet(W[ga], make_eos("ideal", dict(gamma=g)), ic)
+            guess(a, ga, p["rho0"], p["u0"])
+            ic["density"] = p["rho0"] * 3.0                                         # the caller re-uses his dictionary for something else
+            ic["velocity"] = p["u0"] * 0.5
+            A = ctx.call(a, r, t)
+            ref = alone(False)
+    except SolverRaised:
+        ctx.count("shared_argument_case_raised")
+        raise Skip("solver raised")
+    w, wf = worst_diff(S.values(ref), S.values(A))
+    ctx.observe("hist.shared", W[ga].__name__, S.digest(ref) == S.digest(A), branch=p["kind"], measure=w,
+                detail=dict(field=wf, gamma=g, rho0=p["rho0"], u0=p["u0"], geometries=[ga + 1, gb + 1], t=t, alone=S.values(ref).get("density"), in_company=S.values(A).get("density")))
+
+
 def reach(tot, tier):
     out = []
     n = sum(st["evals"] for k, st in tot["stats"].items() if k.startswith("hist.fresh|"))
@@ -492,6 +557,7 @@ def reach(tot, tier):
 
 UNITS = [
     Unit("history", gen_hist, run_hist, quick=96, thorough=960, min_nontrivial=150),
+    Unit("shared", gen_shared, run_shared, quick=36, thorough=360, min_nontrivial=24),
     Unit("reuse", gen_reuse, run_reuse, quick=60 * 4, thorough=60 * 40, min_nontrivial=120),
     Unit("batch", gen_batch, run_batch, quick=len(BATCH) * 4, thorough=len(BATCH) * 40, min_nontrivial=200),
 ]
